@@ -67,7 +67,7 @@ def spec_parse(text, widths, delim):
             return rows
 
 
-def make(widths, delim, maxlen):
+def make(widths, delim, maxlen, encoding="ascii"):
     def mk(mode):
         def h(text: str):
             from cutplace import rowio, errors
@@ -76,7 +76,7 @@ def make(widths, delim, maxlen):
             fl = [("f%d" % i, w) for i, w in enumerate(widths)]
             with patched(quiet_repr()):
                 try:
-                    got = list(rowio.fixed_rows(Stream(text), "ascii", fl, delim))
+                    got = list(rowio.fixed_rows(Stream(text), encoding, fl, delim))
                 except errors.DataFormatError:
                     got = None
             exp = spec_parse(text, widths, delim)
@@ -93,7 +93,7 @@ def make(widths, delim, maxlen):
         text = args["text"]
         fl = [("f%d" % i, w) for i, w in enumerate(widths)]
         try:
-            got = list(rowio.fixed_rows(io.StringIO(text, newline=""), "ascii", fl, delim))
+            got = list(rowio.fixed_rows(io.StringIO(text, newline=""), encoding, fl, delim))
         except errors.DataFormatError as e:
             got = None
         except Exception as e:  # noqa
@@ -137,6 +137,16 @@ def build(tier, seed):
         queries.append(Query("C13/widths=%s/%s/len<=%d" % ("-".join(map(str, w)), d, ml), "fixed", mk,
                              "widths %r, line delimiter %r, every Unicode text of length <= %d" % (w, d, ml),
                              budget_s=budget, per_path_timeout=60, expect=exp, replay=rp, functions=FUNCS,
+                             stubs=("S-STREAM text stream stub (read(n) = next n characters)", "S-FMT")))
+    # the encoding argument names how a *path* would be opened; for an open text stream the rows are the same whatever
+    # it says (a U+FEFF in the text is a character like any other)
+    for w, d, enc in (((2, 1), "lf", "utf-8"), ((1, 1), "none", "UTF_8"), ((2,), "any", "utf-8-sig"), ((1, 2), "crlf", "utf-16"),
+                      ((2, 1), "any", "cp1252")):
+        ml = 6 if tier == "quick" else 9
+        mk, rp = make(list(w), DELIMS[d], ml, enc)
+        queries.append(Query("C13/widths=%s/%s/len<=%d/encoding=%s" % ("-".join(map(str, w)), d, ml, enc), "fixed", mk,
+                             "widths %r, line delimiter %r, encoding argument %r, every Unicode text of length <= %d" % (w, d, enc, ml),
+                             budget_s=budget, per_path_timeout=60, replay=rp, functions=FUNCS,
                              stubs=("S-STREAM text stream stub (read(n) = next n characters)", "S-FMT")))
     return dict(queries=queries,
                 assumptions=["the stream delivers characters exactly as io.StringIO(text, newline='') does"],
